@@ -67,7 +67,7 @@ def _compress_return(hooks, eng, st, val, node):
     hooks.public(eng, st, sup if sup is not None else E.Obj(None, taint=E.TRUE), 'supports-captured-by-undo', node)
 
 COMPRESS = dict(
-    params=dict(data=M.dataset_param(), measurements='seq:obj'), requires=[],
+    params=dict(data=M.dataset_param(), measurements='seq:obj'), requires=[], uses_locals=['supports'],
     hook_cfg=dict(return_check=_compress_return),
     ensures={'ledger-untouched': 'ghost("ledger_rho") == ledger_rho__pre'},
 )
